@@ -901,6 +901,9 @@ func TestVerifC14(t *testing.T) {
 				kind := "process-left"
 				if st[0].Sql == text && len(ndAfter) == 0 {
 					kind = "prefilter-missed" // the rewriter handles it, Process never called it
+					if (rwTime && ContainsTime(lowered)) || (rwRand && ContainsRandom(lowered)) {
+						kind = "process-dropped-rewrite" // parsed and rewritten, but the original text was kept
+					}
 				}
 				rep.Fail(c14Sig(kind, nd, forms), fmt.Sprintf("after Process %q is replicated as %q, still containing %v", text, st[0].Sql, nd), replay)
 			}
